@@ -43,9 +43,9 @@ def run_mc(ck, module, cfg, workers=8, timeout=1500):
 # ---------------------------------------------------------------------------
 # (i) path spellings
 
-CURRENTS_QUICK = ["m.asm", "a/m.asm", "a/b/m.asm", "a\\m.asm", "./m.asm", "./a/m.asm", "a//m.asm",
+CURRENTS_QUICK = ["m.asm", "a/m.asm", "a/b/m.asm", "a\\m.asm", "./m.asm", "./a/m.asm", "a/./m.asm", "a//m.asm",
                   "../m.asm", "a/..//m.asm", "<std>/cpu/m.asm"]
-CURRENTS_MORE = ["a/./m.asm", "a/../m.asm", ".//m.asm", "b/a/../m.asm", "a\\b\\m.asm", "./../m.asm",
+CURRENTS_MORE = ["a/b/./m.asm", "a/../m.asm", ".//m.asm", "b/a/../m.asm", "a\\b\\m.asm", "./../m.asm",
                  "a/b/..//m.asm", "<std>/m.asm"]
 STD_SPELLINGS = ["<std>/x", "<std>/..", "<std>/../x", "<std>/a/../../x", "<std>/../../x", "<std>\\x", "<std>\\..\\x",
                  "<std>", "<std>/", "<std>//x", "/<std>/x", "./<std>/../x", "x/<std>/y", "<STD>/x", "<std>/a\\b",
@@ -277,7 +277,7 @@ def incrange_family(ck, quick, rng, case0):
 
 ROOTS = [("main.asm", "main.asm"), ("./main.asm", "main.asm"), ("sub/inner.asm", "sub/inner.asm"),
          ("./sub/inner.asm", "sub/inner.asm"), ("sub/../main.asm", "main.asm"), ("sub//inner.asm", "sub/inner.asm"),
-         ("sub/..//main.asm", "main.asm"), (".//main.asm", "main.asm")]
+         ("sub/..//main.asm", "main.asm"), (".//main.asm", "main.asm"), ("sub/./inner.asm", "sub/inner.asm")]
 HOWS = {"include": ('#include "%s"\n', "sentinel.asm", "inner2.asm"),
         "incbin": ('#d incbin("%s")\n', "sentinel.asm", "sub/data.bin"),
         "inchexstr": ('#d inchexstr("%s")\n', "sentinel.hex", "sub/hex.txt")}
@@ -330,7 +330,7 @@ def real_family(ck, quick, rng, case0):
                         plan.append((root, phys, how, p + target))
                 if how != "inchexstr":
                     plan.append((root, phys, how, "<std>/cpu/6502.asm"))
-                plan.append((root, phys, how, "<std>/x.asm"))
+                    plan.append((root, phys, how, "<std>/x.asm"))
         nrand = (60 if quick else 1200)
         comps = ["..", "..", ".", "", "sub", "a", "<std>", "proj", os.path.basename(absouter)]
         for _ in range(nrand):
@@ -428,12 +428,11 @@ def run_c14(ck):
     quick = ck.tier == "quick"
     rng = random.Random(ck.seed)
 
-    # 1. the algorithms as coded against the declarative definitions
-    run_mc(ck, "MC_Include", "MC_Include_guarded.cfg" if quick else "MC_Include_guarded_thorough.cfg")
+    # 1. the algorithms as coded against the definitions
     run_mc(ck, "MC_Include", "MC_Include.cfg" if quick else "MC_Include_thorough.cfg")
-    run_mc(ck, "MC_Include", "MC_Include_exact.cfg")
     run_mc(ck, "MC_IncludePaths", "MC_IncludePaths.cfg" if quick else "MC_IncludePaths_thorough.cfg")
-    run_mc(ck, "MC_IncludePaths", "MC_IncludePaths_confined.cfg")
+    # known: a `.' component of the current file counts as a directory level
+    run_mc(ck, "MC_IncludePaths", "MC_IncludePaths_DotInCurrent.cfg")
 
     # 2. the real code
     events, info = [], {}
@@ -473,16 +472,21 @@ def run_c14(ck):
         "absolute current files are not generated",
         "in-process families use the harness's in-memory file server (names are looked up as exact strings); symbolic links are not generated",
         "start / size wider than TLC's integers are capped at 2^30-1 and flagged wide (files have at most 6 units, so they are past the end either way)",
-        "incbin of an explicit start equal to the file length is an error (pinned by tests/incbin/err_start_after_eof.asm); "
-        "the whole-file form of an empty file is the empty value",
+        "an explicit start equal to the file length is an error (pinned by tests/incbin/err_start_after_eof.asm), also for an "
+        "empty file; the form without a range on an empty file is the empty value",
+        "verdicts tagged dot-in-current: the observation has a `.' component in the current / root file name and is exactly what "
+        "the as-coded algorithm (CodedNavigate) predicts (expand-real: the root was named with a leading ./ ; the same graph is "
+        "also judged under the plain root name)",
+        "a project directory literally named <std> can supply `<std>/name' when name is not in the built-in library; such a file "
+        "is inside the working directory and judged as inside",
         "real-executable runs: exit status, killing signal and the occurrence of the sentinel's content in output file / stdout / stderr",
     ]
     return ck.finish(
         rule="all (current, written) path pairs with written paths of <=4 (thorough 5) components from {a,b,.,..,empty} in both "
-             "slash styles + <std> spellings x 10 (18) current files; all inclusion graphs over <=2 files, a sample (thorough: all) "
+             "slash styles + <std> spellings x 11 (19) current files; all inclusion graphs over <=2 files, a sample (thorough: all) "
              "of the 17576 graphs over 3 files and random graphs over 4 files, <=2 includes per file, every #once subset, files in "
              "0-2 directories with varied spellings; incbin/incbinstr/inchexstr over files of 0..6 units x all (start,size) in "
              "absent,0..7 + invalid digits + wide numbers; the real executable in a scratch project (with and without a directory "
-             "named <std>) x 8 root spellings x escaping and non-escaping prefixes x include/incbin/inchexstr; "
+             "named <std>) x 9 root spellings x escaping and non-escaping prefixes x include/incbin/inchexstr; "
              "distinct = per family (shape of the input, outcome)",
         exhaustive=not quick)
